@@ -53,7 +53,7 @@ fn exp_json(e: &Exp) -> String {
     serde_json::to_string(e).unwrap_or_default()
 }
 
-const LEAVES: [f64; 6] = [0.0, 1.0, -0.0, 2.0, 0.5, 3.0];
+const LEAVES: [f64; 8] = [0.0, 1.0, -0.0, 2.0, 0.5, 3.0, -1.0, -2.5];
 
 fn leaf(k: usize) -> Exp {
     match k {
@@ -62,7 +62,7 @@ fn leaf(k: usize) -> Exp {
         n => Exp::Number(LEAVES[n - 2]),
     }
 }
-const NLEAF: usize = 8;
+const NLEAF: usize = 10;
 
 fn unary(k: usize, a: Exp) -> Exp {
     match k {
@@ -534,7 +534,7 @@ impl Driver for C10 {
         let s = tier.pick(1, 10);
         Thresholds {
             min_tags: vec![
-                ("rewrite-checked:exhaustive", 100000),
+                ("rewrite-checked:exhaustive", 400000),
                 ("rewrite-checked:random", 5000 * s),
                 ("twin:same-meaning", 600 * s),
                 ("twin:rejected:MissingFiniteBounds", 20 * s),
